@@ -38,9 +38,9 @@ std::string Describe(const Op& op)
 {
     if (op.kind == OP_CRASH) {
         char b[200];
-        static const char* sel[] = {"uniform", "boundary", "burst-edge"};
+        static const char* sel[] = {"uniform", "boundary", "burst-edge", "inside-coins-flush"};
         static const char* mode[] = {"kill", "powerloss(j=k)", "powerloss(j=last sync)", "powerloss(j seeded)"};
-        snprintf(b, sizeof b, "FAULT crash at io[%s#%ld] %s torn=%ld", sel[op.mod(0, 3)], (long)op.arg(1), mode[op.mod(2, 4)], (long)(op.arg(4) & 1));
+        snprintf(b, sizeof b, "FAULT crash at io[%s#%ld] %s torn=%ld", sel[op.mod(0, 4)], (long)op.arg(1), mode[op.mod(2, 4)], (long)(op.arg(4) & 1));
         return b;
     }
     if (op.kind == OP_PRUNE) return "pruneblockchain(height#" + std::to_string(op.arg(0)) + ")";
@@ -83,6 +83,18 @@ Plan Gen(uint64_t seed, Tier tier)
         case OP_CLOCK: op.a = {(int64_t)rng.skewed(600, 7200)}; break; // long enough to pass m_next_write
         case OP_REORG: op.a = {(int64_t)rng.skewed(1, 5), (int64_t)rng.range(1, 2), (int64_t)rng.range(0, 4), (int64_t)(rng.next() >> 16), 0}; break;
         }
+        if (op.kind == OP_REORG && rng.chance(2, 3)) {
+            // flush, reorg, flush: the second flush has to move the on-disk coins across a fork (ReplayBlocks must roll back AND forward
+            // if the crash lands inside it)
+            Op f;
+            f.kind = OP_FLUSH;
+            f.a = {(int64_t)rng.below(2)};
+            p.ops.push_back(f);
+            p.ops.push_back(op);
+            f.a = {(int64_t)rng.below(2)};
+            p.ops.push_back(f);
+            continue;
+        }
         p.ops.push_back(op);
     }
     if (tier == Tier::THOROUGH && rng.chance(1, 3)) {
@@ -92,7 +104,7 @@ Plan Gen(uint64_t seed, Tier tier)
         for (int i = 0; i < ncrash; ++i) {
             Op op;
             op.kind = OP_CRASH;
-            op.a = {(int64_t)rng.pick({3, 5, 2}), (int64_t)(rng.next() >> 20), (int64_t)rng.pick({3, 1, 4, 3}), (int64_t)(rng.next() >> 20), (int64_t)rng.below(4), (int64_t)(rng.next() >> 20)};
+            op.a = {(int64_t)rng.pick({3, 4, 2, 5}), (int64_t)(rng.next() >> 20), (int64_t)rng.pick({3, 1, 4, 3}), (int64_t)(rng.next() >> 20), (int64_t)rng.below(4), (int64_t)(rng.next() >> 20)};
             p.ops.push_back(op);
         }
     }
@@ -140,6 +152,19 @@ struct CrashSim {
         if (ii.tore) ctx.fault("torn_write");
         ctx.fault(spec.powerloss ? "crash_powerloss" : "crash_kill");
         if (ii.dropped) ctx.probe("unsynced_ops_dropped", ii.dropped);
+        // Reach probe: did the crash leave a torn coins flush (DB_HEAD_BLOCKS), and does repairing it need a rollback?
+        // (Opening the database here does what the node's own start does first anyway: LevelDB log recovery.)
+        try {
+            CCoinsViewDB peek(DBParams{.path = fs::PathFromString(img + "/node0/chainstate"), .cache_bytes = 1 << 20}, CoinsViewOptions{});
+            std::vector<uint256> heads = peek.GetHeadBlocks();
+            if (heads.size() == 2) {
+                ctx.probe("torn_coins_flush_left");
+                int hn = cs.ref->Find(heads[0]), ho = heads[1].IsNull() ? 0 : cs.ref->Find(heads[1]);
+                if (hn >= 0 && ho >= 0 && !cs.ref->IsAncestor(ho, hn)) ctx.probe("replay_needs_rollback");
+            }
+        } catch (const std::exception&) {
+            // an unopenable database is reported by the node start below
+        }
         NodeOpts o = BaseOpts(img + "/node0");
         o.check_level = 4;
         o.check_blocks = 0;
@@ -282,6 +307,13 @@ struct CrashSim {
             if (first) burst_edges.push_back(i + 1);
             if (last && !first) burst_edges.push_back(i);
         }
+        // crash points strictly inside multi-write coins-DB flushes (partial batches between the DB_HEAD_BLOCKS marker and the final batch)
+        std::map<uint32_t, bool> is_coins_ino;
+        for (size_t i = 0; i < end; ++i)
+            if (log[i].kind == simfs::OpKind::CREATE) is_coins_ino[log[i].ino] = log[i].path.find("chainstate/") != std::string::npos;
+        std::vector<size_t> inside_coins_flush;
+        for (size_t i = k0; i + 1 < end; ++i)
+            if (log[i].kind == simfs::OpKind::WRITE && log[i + 1].kind == simfs::OpKind::WRITE && log[i].ino == log[i + 1].ino && is_coins_ino[log[i].ino]) inside_coins_flush.push_back(i + 1);
         auto last_sync_before = [&](size_t k) {
             for (size_t i = k; i-- > 0;)
                 if (log[i].kind == simfs::OpKind::SYNC || log[i].kind == simfs::OpKind::SYNCDIR) return i + 1;
@@ -310,8 +342,9 @@ struct CrashSim {
         } else {
             for (const Op& op : crashes) {
                 size_t k;
-                int sel = (int)op.mod(0, 3);
-                if (sel == 1 && !boundaries.empty()) k = boundaries[op.mod(1, boundaries.size())];
+                int sel = (int)op.mod(0, 4);
+                if (sel == 3 && !inside_coins_flush.empty()) k = inside_coins_flush[op.mod(1, inside_coins_flush.size())];
+                else if (sel == 1 && !boundaries.empty()) k = boundaries[op.mod(1, boundaries.size())];
                 else if (sel == 2 && !burst_edges.empty()) k = burst_edges[op.mod(1, burst_edges.size())];
                 else k = k0 + op.mod(1, end - k0 + 1);
                 one(k, (int)op.mod(2, 4), (uint64_t)op.arg(3), op.arg(4) & 1, (uint32_t)op.arg(5));
@@ -354,7 +387,7 @@ Engine MakeEngine()
     e.stub_components = {"disk and page cache (simfs: recorded pass-through to tmpfs; crash = log cut + rebuild)", "process crash (never a real kill)", "peers", "clock (SetMockTime)", "LevelDB background compaction thread: real, not scheduled by the simulator (counted by probe io_from_background_thread)"};
     e.assumptions = {"power-loss model: a suffix of not-yet-synced operations is discarded; an fsync/fdatasync of an inode makes all its earlier writes and its directory entry durable; rename/unlink/mkdir become durable with an fsync of the parent directory; torn writes only at 512-byte boundaries of an unsynced append",
                      "RefChain model is correct (see C08)", "oracle (3) uses the tip at the last forced full flush (or clean shutdown) that returned before the crash index"};
-    e.expected_probes = {"recoveries", "crash_kill", "crash_powerloss", "torn_write", "unsynced_ops_dropped", "rolled_forward_from_stored_blocks", "redelivered_after_recovery", "reorg", "clean_restart"};
+    e.expected_probes = {"recoveries", "crash_kill", "crash_powerloss", "torn_write", "unsynced_ops_dropped", "rolled_forward_from_stored_blocks", "redelivered_after_recovery", "reorg", "clean_restart", "torn_coins_flush_left", "replay_needs_rollback"};
     return e;
 }
 Engine g_engine = MakeEngine();
